@@ -87,6 +87,11 @@ class Script(Exception):
     pass
 
 
+YVALS = {'inf': lambda: float('inf'), 'ninf': lambda: float('-inf'), 'nan': lambda: float('nan'), 'none': lambda: None,
+         'true': lambda: True, 'false': lambda: False, 'str': lambda: '', 'list': lambda: [], 'nzero': lambda: -0.0,
+         'fzero': lambda: 0.0, 'izero': lambda: 0, 'neg': lambda: -0.125, 'big': lambda: 1e308, 'tuple': lambda: (1, 2)}
+
+
 class XRun:
     def __init__(self, prog, mode):
         self.prog = prog
@@ -410,6 +415,10 @@ class XRun:
                     kind = a[0]
                     if kind == 'Y':
                         yield num(a[1])
+                        k += 1
+                        run.on_resume(rid, k, clock)
+                    elif kind == 'YV':        # a yielded value that is not a finite number >= 0
+                        yield YVALS[a[1]]()
                         k += 1
                         run.on_resume(rid, k, clock)
                     elif kind == 'R':
